@@ -11,7 +11,7 @@ runs = [
  ("MC_Registry", DR.CFG_REGISTRY % ("tiny1", "FALSE")),
  ("MC_Closure", DR.CFG_CLOSURE % (4, "FALSE")),
  ("MC_StrTypes", DS.CFG_STR % 2),
- ("MC_Cli", DC.CFG_CLI % (2, "FALSE")),
+ ("MC_Cli", DC.CFG_CLI % (2, "FALSE", "FALSE")),
  ("MC_Header", DH.CFG_HEADER % 4),
  ("MC_Session", DSS.CFG_SESSION % ("FALSE", "FALSE", "t2", DSS.kcfg(K, F))),
  ("MC_Session", DSS.CFG_SESSION % ("FALSE", "FALSE", "hist3", DSS.kcfg(K, F))),
